@@ -3,9 +3,9 @@ import ast
 import itertools
 import re
 
-from ..algebra import Alg, atom, const, ref
-from ..dispatch import Facts, walk
-from ..model import AnalysisError, stmts_in
+from ..algebra import RF, Alg, atom, const, ref
+from ..model import AnalysisError, attr_chain, stmts_in
+from ..pe import PE, K, Raised
 
 EXPLANATION = (
     "Static rules over Viewbox.viewbox_transform (no execution). R11.1: for every align value (none + 9 xM?YM? values, "
@@ -26,7 +26,7 @@ ASSUMPTIONS = [
     "Number formatting (Length.str, 12 decimals) is outside the decided part.",
 ]
 EXHAUSTIVE = True
-FLOORS = {"R11.1": 120, "R11.3": 10, "R11.4": 4}
+FLOORS = {"R11.1": 120, "R11.3": 10, "R11.4": 16}
 
 ALIGNS = ["none"] + ["x%sY%s" % (a, b) for a in ("Min", "Mid", "Max") for b in ("Min", "Mid", "Max")]
 PARAMS = ["e_x", "e_y", "e_width", "e_height", "vb_x", "vb_y", "vb_width", "vb_height", "aspect"]
@@ -60,101 +60,156 @@ def run(ctx):
     ctx.rule("R11.5", "parameter plumbing")
     fn = ctx.fn("Viewbox.viewbox_transform", "R11.1")
     have = [a.arg for a in fn.args.args]
-    ctx.need(have == PARAMS, "R11.1", "viewbox_transform parameters changed: %s" % have)
+    ctx.need(len(have) == 9, "R11.1", "viewbox_transform parameters changed: %s" % have)
     body = [s for s in fn.body if not (isinstance(s, ast.Expr) and isinstance(s.value, ast.Constant))]
-    # --- R11.3 None guard is the first statement and covers all eight
-    g = body[0]
-    tested = set()
-    if isinstance(g, ast.If):
-        for c in ast.walk(g.test):
-            if isinstance(c, ast.Compare) and isinstance(c.ops[0], ast.Is) and isinstance(c.comparators[0], ast.Constant) and c.comparators[0].value is None \
-                    and isinstance(c.left, ast.Name):
-                tested.add(c.left.id)
-    is_or = isinstance(g, ast.If) and isinstance(g.test, ast.BoolOp) and isinstance(g.test.op, ast.Or)
-    ret_empty = isinstance(g, ast.If) and len(g.body) == 1 and isinstance(g.body[0], ast.Return) and isinstance(g.body[0].value, ast.Constant) and g.body[0].value.value == ""
-    for p in PARAMS[:8]:
-        ctx.ob("R11.3", "viewbox_transform[None guard %s]" % p, p in tested and is_or and ret_empty, "tested: %s" % sorted(tested), g.lineno,
-               "a missing quantity must give the identity transform before any arithmetic touches it")
-    # --- defaults
-    asp = body[1]
-    ctx.need(isinstance(asp, ast.If) and "aspect is not None" in ast.unparse(asp.test), "R11.3", "aspect parsing block not found")
-    defaults = {"align": [], "meet_or_slice": []}
-    sources = {}
-    for s in stmts_in([asp]):
-        if isinstance(s, ast.Assign) and isinstance(s.targets[0], ast.Name) and s.targets[0].id in defaults:
-            if isinstance(s.value, ast.Constant):
-                defaults[s.targets[0].id].append((s.value.value, s.lineno))
-            else:
-                sources[s.targets[0].id] = ast.unparse(s.value)
-    for v, line in defaults["align"]:
-        ctx.ob("R11.3", "viewbox_transform[default align]", v.lower() == "xmidymid", repr(v), line, "default align is xMidYMid")
-    for v, line in defaults["meet_or_slice"]:
-        ctx.ob("R11.3", "viewbox_transform[default meetOrSlice]", v == "meet", repr(v), line, "default meetOrSlice is meet")
-    ctx.need(defaults["align"] and defaults["meet_or_slice"], "R11.3", "defaults for align / meetOrSlice not found")
-    split_var = None
-    for s in stmts_in([asp]):
-        if isinstance(s, ast.Assign) and isinstance(s.value, ast.Call) and isinstance(s.value.func, ast.Attribute) and s.value.func.attr == "split" \
-                and ast.unparse(s.value.func.value) == "aspect":
-            split_var = s.targets[0].id
-    ctx.need(split_var is not None, "R11.3", "aspect.split(...) not found")
-    ctx.ob("R11.3", "viewbox_transform[token order]", sources.get("align") == "%s[0]" % split_var and sources.get("meet_or_slice") == "%s[1]" % split_var,
-           str(sources), asp.lineno, "align is the first token of preserveAspectRatio and meetOrSlice the second")
-    # --- R11.1 main computation for every (align, mos)
-    tail = body[2:]
-    # split tail: computing part ends at first statement that mentions Length.str / returns
-    comp = []
-    out_part = []
-    for s in tail:
-        if out_part or any(isinstance(n, ast.Return) for n in ast.walk(s)) or "isinstance(scale_x, Length)" in ast.unparse(s):
-            out_part.append(s)
+
+    def evaluate(aspect, none_param=None, ident=None):
+        """Follow the whole function for one preserveAspectRatio value.  ident = (tx0, ty0, sx1, sy1) answers the identity tests."""
+        want = [None]
+        asked = {0: [], 1: []}
+
+        def oracle(pe, test):
+            # identity tests `q == 0` / `q == 1` on a symbolic quantity: answered from the scenario, per distinct quantity in order of first appearance
+            if isinstance(test, ast.Compare) and len(test.ops) == 1 and isinstance(test.ops[0], (ast.Eq, ast.NotEq)) and ident is not None:
+                l, r = pe.ev(test.left), pe.ev(test.comparators[0])
+                for a_, b_ in ((l, r), (r, l)):
+                    if isinstance(a_, RF) and isinstance(b_, RF) and b_.is_const() and not a_.is_const() and b_.constval() in (0, 1):
+                        kind = int(b_.constval())
+                        lst = asked[kind]
+                        for q, ans in lst:
+                            if q == a_:
+                                break
+                        else:
+                            if len(lst) >= 2:
+                                return None
+                            ans = ident[2 * kind + len(lst)]
+                            lst.append((a_, ans))
+                        return ans if isinstance(test.ops[0], ast.Eq) else not ans
+            return None
+
+        def hook(pe, call):
+            ch = attr_chain(call.func)
+            if ch == ["Length", "str"] and len(call.args) == 1:
+                return pe.ev(call.args[0])
+            if ch in (["str"], ["float"]) and len(call.args) == 1:
+                v = pe.ev(call.args[0])
+                if isinstance(v, RF):
+                    return v
+            return None
+
+        pe = PE(ctx.m, "R11.1", "viewbox_transform[%r]" % (aspect,), oracle=oracle, call_hook=hook)
+        for i, p in enumerate(have[:8]):
+            pe.bind(p, K(None) if none_param == i else atom(PARAMS[i]))
+        pe.bind(have[8], K(aspect))
+        toks = aspect.split(" ") if aspect is not None else []
+        align = toks[0] if toks else "xMidYMid"
+        mos = toks[1] if len(toks) > 1 else "meet"
+        want[0] = reference(align, mos)
+        res = pe.run(body)
+        pe.asked = asked
+        return pe, res, want[0]
+
+    def output(pe, res):
+        """[(function name, [RF args])] of the returned transform string"""
+        if res is None or res.kind != "return" or res.value is None:
+            return None
+        node = res.value
+        v = None
+        if isinstance(node, ast.Constant) and isinstance(node.value, str):
+            fmt, args = node.value, []
+        elif isinstance(node, ast.BinOp) and isinstance(node.op, ast.Mod):
+            f = pe.ev(node.left)
+            if not (isinstance(f, K) and isinstance(f.v, str)):
+                return None
+            fmt = f.v
+            args = [pe.ev(a) for a in (node.right.elts if isinstance(node.right, ast.Tuple) else [node.right])]
+        elif isinstance(node, ast.Name) and isinstance(pe.env.get(node.id), K) and isinstance(pe.env[node.id].v, str):
+            fmt, args = pe.env[node.id].v, []
         else:
-            comp.append(s)
-    ctx.need(comp and out_part, "R11.1", "computation / output parts not separated")
+            return None
+        out = []
+        pos = 0
+        for mt in re.finditer(r"([a-zA-Z]+)\(([^)]*)\)", fmt):
+            n = mt.group(2).count("%s")
+            if mt.group(2).replace("%s", "").replace(",", "").strip():
+                return None
+            out.append((mt.group(1), args[pos:pos + n]))
+            pos += n
+        rest = re.sub(r"([a-zA-Z]+)\(([^)]*)\)", "", fmt).strip()
+        if rest or pos != len(args):
+            return None
+        return out
+
+    # --- R11.3 None guards: a missing quantity gives the identity before any arithmetic touches it
+    for i, p in enumerate(PARAMS[:8]):
+        ok, detail = False, ""
+        try:
+            pe, res, _ = evaluate("xMidYMid meet", none_param=i, ident=(False, False, False, False))
+            ok = output(pe, res) == []
+            detail = "returns %s" % (ast.unparse(res.value) if res is not None and res.value is not None else None)
+        except Raised as e:
+            detail = "raises %s" % e.name
+        except AnalysisError as e:
+            detail = str(e)[:120]
+        ctx.ob("R11.3", "viewbox_transform[None guard %s]" % p, ok, detail, fn.lineno,
+               "a missing quantity must give the identity transform before any arithmetic touches it")
+    # --- R11.1 / R11.3 defaults / R11.4 outputs: the whole function per preserveAspectRatio value
+    cases = [(None, "xMidYMid", "meet", "default align"), ("xMinYMax", "xMinYMax", "meet", "default meetOrSlice")]
     for align in ALIGNS:
         for mos in ("meet", "slice", "other"):
-            facts = Facts(strs={"align": align, "meet_or_slice": mos})
-            alg = Alg()
-            out = walk(comp, facts, alg, ctx.m, "R11.1", "viewbox_transform[%s %s]" % (align, mos))
-            ctx.need(out.kind == "fall", "R11.1", "computation part returned early for %s %s" % (align, mos))
-            want = reference(align, mos)
-            for var in ("scale_x", "scale_y", "translate_x", "translate_y"):
-                got = alg.env.get(var)
-                ctx.need(got is not None and not isinstance(got, list), "R11.1", "variable %s not computed" % var)
-                ctx.ob("R11.1", "viewbox_transform[%s %s].%s" % (align, mos, var), got == want[var], "%s vs %s" % (got, want[var]), fn.lineno,
-                       "differs from SVG 2 8.2 for preserveAspectRatio='%s %s'" % (align, mos), sample=(align in ("xMidYMax", "none")))
-    # --- R11.4 outputs
-    tests = []
-    for s in stmts_in(out_part):
-        if isinstance(s, ast.If):
-            t = ast.unparse(s.test)
-            if t not in tests and "isinstance" not in t:
-                tests.append(t)
-    ctx.need(1 <= len(tests) <= 4, "R11.4", "output guards not recognised: %s" % tests)
-
-    def kind(t):
-        if re.fullmatch(r"translate_x == 0(\.0)? and translate_y == 0(\.0)?", t) or re.fullmatch(r"translate_y == 0(\.0)? and translate_x == 0(\.0)?", t):
-            return "T0"
-        if re.fullmatch(r"scale_x == 1(\.0)? and scale_y == 1(\.0)?", t) or re.fullmatch(r"scale_y == 1(\.0)? and scale_x == 1(\.0)?", t):
-            return "S1"
-        return None
-
-    kinds = {t: kind(t) for t in tests}
-    ctx.need(all(kinds.values()), "R11.4", "output guard idiom not recognised: %s" % tests)
+            cases.append(("%s %s" % (align, mos), align, mos, None))
     n_out = 0
-    for combo in itertools.product([False, True], repeat=len(tests)):
-        truth = dict(zip(tests, combo))
-        facts = Facts(truth=truth, types={"scale_x": "float", "scale_y": "float"})
-        out = walk(out_part, facts, Alg(), ctx.m, "R11.4", "viewbox_transform[output]")
-        ctx.need(out.kind == "return", "R11.4", "no result returned")
-        t0 = any(v for t, v in truth.items() if kinds[t] == "T0")
-        s1 = any(v for t, v in truth.items() if kinds[t] == "S1")
-        got = parse_output(out.node)
-        full = [("translate", ["translate_x", "translate_y"]), ("scale", ["scale_x", "scale_y"])]
-        want_min = [f for f in full if not ((f[0] == "translate" and t0) or (f[0] == "scale" and s1))]
-        ok = got is not None and (got == full or got == want_min)
+    for aspect, align, mos, tag in cases:
+        try:
+            pe, res, want = evaluate(aspect, ident=(False, False, False, False))
+        except Raised as e:
+            raise AnalysisError("R11.1", "viewbox_transform[%s]: raises %s on plain numbers" % (aspect, e.name))
+        got = output(pe, res)
+        ctx.need(got is not None, "R11.1", "viewbox_transform[%s]: returned expression not interpreted" % (aspect,))
+        parts = dict(got)
+        full_order = [n for n, _ in got] == ["translate", "scale"] and all(len(a) == 2 for _, a in got)
+        vals = {}
+        if full_order:
+            vals = {"translate_x": parts["translate"][0], "translate_y": parts["translate"][1], "scale_x": parts["scale"][0], "scale_y": parts["scale"][1]}
+        if tag is not None:
+            ok = full_order and all(isinstance(vals[k], RF) and vals[k] == want[k] for k in want)
+            ctx.ob("R11.3", "viewbox_transform[%s]" % tag, ok, "preserveAspectRatio=%r gives %s" % (aspect, {k: str(v) for k, v in vals.items()}), fn.lineno,
+                   "default align is xMidYMid, default meetOrSlice is meet")
+            continue
+        for var in ("scale_x", "scale_y", "translate_x", "translate_y"):
+            g = vals.get(var)
+            ctx.ob("R11.1", "viewbox_transform[%s %s].%s" % (align, mos, var), isinstance(g, RF) and g == want[var], "%s vs %s" % (g, want[var]), fn.lineno,
+                   "differs from SVG 2 8.2 for preserveAspectRatio='%s %s'" % (align, mos), sample=(align in ("xMidYMax", "none")))
+    # --- R11.4: which parts may be dropped, for every combination of identity facts
+    for ident in itertools.product([False, True], repeat=4):
+        pe, res, want = evaluate("none meet", ident=ident)
+        got = output(pe, res)
+        ok = got is not None
+        detail = ""
+        if ok:
+            names = [n for n, _ in got]
+            full = ["translate", "scale"]
+
+            def proven(kind, keys):
+                return all(any(q == want[k] and ans for q, ans in pe.asked[kind]) for k in keys)
+
+            may_drop_t = proven(0, ("translate_x", "translate_y"))
+            may_drop_s = proven(1, ("scale_x", "scale_y"))
+            allowed = [full, [f for f in full if not ((f == "translate" and may_drop_t) or (f == "scale" and may_drop_s))]]
+            if may_drop_t and not may_drop_s:
+                allowed.append(["scale"])
+            if may_drop_s and not may_drop_t:
+                allowed.append(["translate"])
+            ok = names in allowed
+            detail = "identity facts established: translate %s, scale %s; returns %s" % (may_drop_t, may_drop_s, names)
+            for n, a in got:
+                if n == "translate":
+                    ok = ok and len(a) == 2 and a[0] == want["translate_x"] and a[1] == want["translate_y"]
+                if n == "scale":
+                    ok = ok and len(a) == 2 and a[0] == want["scale_x"] and a[1] == want["scale_y"]
         n_out += 1
-        ctx.ob("R11.4", "viewbox_transform[output T0=%s S1=%s]" % (t0, s1), ok, "returns %s" % (got,), out.stmt.lineno,
-               "result must be translate(tx, ty) scale(sx, sy) in this order; a part may be dropped only when it is the identity")
+        ctx.ob("R11.4", "viewbox_transform[output identity answers %s]" % "".join("T" if x else "F" for x in ident), ok, detail, fn.lineno,
+               "result must be translate(tx, ty) scale(sx, sy) in this order; a part may be dropped only when it is the identity (both components)", sample=(ident == (True, False, True, True)))
     # --- R11.5 plumbing
     tf = ctx.fn("Viewbox.transform", "R11.5")
     calls = [c for c in ast.walk(tf) if isinstance(c, ast.Call) and ast.unparse(c.func).endswith("viewbox_transform")]
@@ -162,6 +217,10 @@ def run(ctx):
     el = tf.args.args[1].arg
     want = ["%s.x" % el, "%s.y" % el, "%s.width" % el, "%s.height" % el, "self.x", "self.y", "self.width", "self.height", "self.preserve_aspect_ratio"]
     got = [ast.unparse(a) for a in calls[0].args]
+    kw = {k.arg: ast.unparse(k.value) for k in calls[0].keywords if k.arg}
+    for i, pn in enumerate(have):
+        if i >= len(got) and pn in kw:
+            got.append(kw[pn])
     ctx.ob("R11.5", "Viewbox.transform[argument order]", got == want, str(got), tf.lineno, "element and viewBox quantities passed in the wrong slots")
     sv = ctx.fn("Viewbox.set_viewbox", "R11.5")
     m = {}
